@@ -97,9 +97,10 @@ def replay_crypto(rng=None):
     sink = Sink()
     w = encryption.EncryptedSocketWrapper(sink, cipher.encryptor(), cipher.decryptor())
     data = bytes(rng.getrandbits(8) for _ in range(rng.randrange(1, 1500)))
+    data = data + bytes(rng.getrandbits(8) for _ in range(rng.choice([0, 2048, 5012, 70001])))
     pos = 0
     while pos < len(data):
-        k = rng.randrange(1, 200)
+        k = rng.choice([rng.randrange(1, 200), 2047, 2048, 2049, 4096, 5012, 65536, 70000])
         w.send(data[pos:pos + k])
         pos += k
     if sink.data != ref_out.encrypt(data):
